@@ -369,8 +369,9 @@ def make_c03_judge():
 def flat_ref(r):
     """a reference is identified the way Biopython identifies it (Reference.__eq__): bibliographic fields *and* the span
     ("bases 1 to N") it is listed with; the same paper listed with two different spans is two reference entries"""
-    return ("REF", getattr(r, "title", None), getattr(r, "authors", None), getattr(r, "journal", None),
-            getattr(r, "pubmed_id", None), getattr(r, "comment", None), tuple(repr(x) for x in (getattr(r, "location", None) or [])))
+    h = lambda v: tuple(v) if isinstance(v, list) else v          # (authors may be a list split by author)
+    return ("REF", h(getattr(r, "title", None)), h(getattr(r, "authors", None)), h(getattr(r, "journal", None)),
+            h(getattr(r, "pubmed_id", None)), h(getattr(r, "comment", None)), tuple(repr(x) for x in (getattr(r, "location", None) or [])))
 
 
 def _flat(v):
